@@ -28,7 +28,7 @@ inductive Produced (cfg : Cfg) (t0 : Int) (req : Req) (tr : List Step) (x : Resp
       Produced cfg t0 req tr x
   /-- the outcome of the validation of entry e0 against the origin's answer `ans` -/
   | validated (e0 : Entry) (id : Str) (ans : OriginAns) (mv : Bool) : Step.getEntry id (some e0) ∈ tr →
-      (∃ m hd, Step.origin m hd none ans ∈ tr) → ValidationOutcome (parsedEntry e0) mv (fixAns cfg ans) (.resp x) →
+      (∃ m hd, Step.origin m hd none ans ∈ tr) → ValidationOutcome req.header (parsedEntry e0) mv (fixAns cfg ans) (.resp x) →
       Produced cfg t0 req tr x
   /-- the origin's own reply (miss or bypass): status and body are the origin's, marked MISS or BYPASS -/
   | fromOrigin (rr : Resp) (t1 : Int) (b : Bool) : (∃ m hd, Step.origin m hd none (.resp rr t1 b) ∈ tr) →
